@@ -207,13 +207,16 @@ func c13RunTrk(t *testing.T, stats *VStats) {
 					}
 				case c < 8:
 					if len(x.pendRels) > 0 {
-						var fk []int
+						var all, fk []int
 						for k := range x.pendRels {
+							all = append(all, k)
+						}
+						sort.Ints(all) // (draw in key order, not in Go's map order: the stream is reproducible per seed)
+						for _, k := range all {
 							if rr.Chance(0.7) {
 								fk = append(fk, k)
 							}
 						}
-						sort.Ints(fk)
 						if len(fk) > 0 {
 							finalize(ti, fk)
 						}
